@@ -571,6 +571,23 @@ def block_variables_exist_from_block_entry(ctx):
     reach_exit_without = set(hb.exits()) & hb.reach([r.target for r in regs if r.target is not None], removed_nodes=[head], removed_edges=dead)
     if not assign_only or not nulls:
         return False, "the definition is not `null` for every `make` statement of the block"
+    # the pass that defines the variables sees *all* statements knowing whether the block defines a function: when it is the
+    # same loop as the one that registers the functions, a test of the flag inside it depends on statement order - a `make`
+    # that precedes the block's first function definition is skipped
+    if any(r.block in body for r in regs):
+        for S, al in hb.constraints(defs[0].block):
+            if S not in body:
+                continue
+            d = hb.blocks[S]["t"]["d"]
+            pl = (d.get("move") or d.get("copy")) if isinstance(d, dict) else None
+            root = pl["l"] if pl is not None and not pl["p"] else None
+            if root is not None and root not in flags:
+                dd = hb.whole_defs(root)
+                if len(dd) == 1 and dd[0][1] != "t" and dd[0][2]["rv"]["k"] == "use" and isinstance(dd[0][2]["rv"]["a"], dict):
+                    p2 = dd[0][2]["rv"]["a"].get("move") or dd[0][2]["rv"]["a"].get("copy")
+                    root = p2["l"] if p2 is not None and not p2["p"] else root
+            if root in flags:
+                return False, "a `make` that precedes the block's first function definition gets no slot (the flag is tested in the loop that is still computing it)"
     if reach_exit_without:
         return False, "a block can register a function without defining its variables"
     return True, "every `make` variable of a block that defines a function gets a null slot at block entry (hoist_block_functions, before any statement runs)"
@@ -740,6 +757,9 @@ def r11_more_shared_front_end_rules(ctx):
     r2_slice_clamps(ctx)
     r4c_initialiser_sees_the_old_scope(ctx)
     encode_buffers(ctx)
+    # a pruned declaration whose variable is written later: the write panics on a missing variable (C03-R4g)
+    from .c03 import r4g_reads_and_writes_are_each_walked
+    r4g_reads_and_writes_are_each_walked(ctx)
 
 
 def _every_alternative_nonzero(fn, assert_term, core):
@@ -862,7 +882,17 @@ def r12_no_division_by_zero(ctx):
     ctx.floor("integer divisions / remainders with a run-time check", n, 10)
 
 
-RULES = [("C06-R1", r1_r2_r7), ("C06-R3", r3_args_index), ("C06-R4", r4_unchecked), ("C06-R5", r5_binding_expects), ("C06-R8", r8_unsigned_subtraction), ("C06-R9", r9_no_failing_index_in_string_builtins), ("C06-R10", r10_static_tables_describe_the_runtime), ("C06-R11", r11_more_shared_front_end_rules), ("C06-R12", r12_no_division_by_zero)]
+def r13_data_depth_fits_the_stack(ctx):
+    """A native stack overflow is a crash like any other.  Copying, relocating, dropping and printing a value recurse once per
+    nesting level of arrays with no probe, so the limit on nesting times the fattest of those frames, on top of the probe's
+    budget, has to fit the stack of the thread the program runs on.  Shared with C08-R2 (probe, budget and the price of the
+    data-depth recursions) and C08-R3 (the limit is enforced wherever nesting can grow)."""
+    from .c08 import r2_probe_and_budget, r3_data_depth_is_bounded
+    r2_probe_and_budget(ctx)
+    r3_data_depth_is_bounded(ctx)
+
+
+RULES = [("C06-R1", r1_r2_r7), ("C06-R3", r3_args_index), ("C06-R4", r4_unchecked), ("C06-R5", r5_binding_expects), ("C06-R8", r8_unsigned_subtraction), ("C06-R9", r9_no_failing_index_in_string_builtins), ("C06-R10", r10_static_tables_describe_the_runtime), ("C06-R11", r11_more_shared_front_end_rules), ("C06-R12", r12_no_division_by_zero), ("C06-R13", r13_data_depth_fits_the_stack)]
 
 EXPLANATION = (
     "Static analysis of the type-checked MIR of every body reachable from Runtime::run/run_with_analysis in the script-facing "
